@@ -5,6 +5,8 @@
 #include "iogateway/MessageIOGateway.h"
 #include "tun_access.h"   // C12: packet tunnel gateways + scripted packet transport
 #include "regex/StringMatcher.h"   // C15 block below
+#include "regex/QueryFilter.h"   // C14
+#include "util/TimeUtilityFunctions.h"
 using namespace muscle;
 
 #define K(name, val) printf("def %s : Nat := %llu\n", name, (unsigned long long)(val))
@@ -113,6 +115,47 @@ int main()
    K("oldestProtocolVersion", (uint32)OLDEST_SUPPORTED_PROTOCOL_VERSION);
    K("encodingDefault",   (uint32)MUSCLE_MESSAGE_ENCODING_DEFAULT);
    K("encodingEndMarker", (uint32)MUSCLE_MESSAGE_ENCODING_END_MARKER);
+   // ---- C14: query-filter class codes and operator enums (regex/QueryFilter.h)
+   printf("\n/- C14: QUERY_FILTER_TYPE_* class codes, MUSCLE_NO_LIMIT, operator enums -/\n");
+   K("qfWhatCode",    (uint32)QUERY_FILTER_TYPE_WHATCODE);
+   K("qfValueExists", (uint32)QUERY_FILTER_TYPE_VALUEEXISTS);
+   K("qfBool",        (uint32)QUERY_FILTER_TYPE_BOOL);
+   K("qfDouble",      (uint32)QUERY_FILTER_TYPE_DOUBLE);
+   K("qfFloat",       (uint32)QUERY_FILTER_TYPE_FLOAT);
+   K("qfInt64",       (uint32)QUERY_FILTER_TYPE_INT64);
+   K("qfInt32",       (uint32)QUERY_FILTER_TYPE_INT32);
+   K("qfInt16",       (uint32)QUERY_FILTER_TYPE_INT16);
+   K("qfInt8",        (uint32)QUERY_FILTER_TYPE_INT8);
+   K("qfPoint",       (uint32)QUERY_FILTER_TYPE_POINT);
+   K("qfRect",        (uint32)QUERY_FILTER_TYPE_RECT);
+   K("qfString",      (uint32)QUERY_FILTER_TYPE_STRING);
+   K("qfMessage",     (uint32)QUERY_FILTER_TYPE_MESSAGE);
+   K("qfRawData",     (uint32)QUERY_FILTER_TYPE_RAWDATA);
+   K("qfMaxMatch",    (uint32)QUERY_FILTER_TYPE_MAXMATCH);
+   K("qfMinMatch",    (uint32)QUERY_FILTER_TYPE_MINMATCH);
+   K("qfXor",         (uint32)QUERY_FILTER_TYPE_XOR);
+   K("qfChildCount",  (uint32)QUERY_FILTER_TYPE_CHILDCOUNT);
+   K("qfNodeName",    (uint32)QUERY_FILTER_TYPE_NODENAME);
+   K("nopEq", Int32QueryFilter::OP_EQUAL_TO); K("nopLt", Int32QueryFilter::OP_LESS_THAN); K("nopGt", Int32QueryFilter::OP_GREATER_THAN);
+   K("nopLe", Int32QueryFilter::OP_LESS_THAN_OR_EQUAL_TO); K("nopGe", Int32QueryFilter::OP_GREATER_THAN_OR_EQUAL_TO); K("nopNe", Int32QueryFilter::OP_NOT_EQUAL_TO);
+   K("mopNone", NQF_MASK_OP_NONE); K("mopAnd", NQF_MASK_OP_AND); K("mopOr", NQF_MASK_OP_OR); K("mopXor", NQF_MASK_OP_XOR);
+   K("mopNand", NQF_MASK_OP_NAND); K("mopNor", NQF_MASK_OP_NOR); K("mopXnor", NQF_MASK_OP_XNOR);
+   K("sopEq", StringQueryFilter::OP_EQUAL_TO); K("sopLt", StringQueryFilter::OP_LESS_THAN); K("sopGt", StringQueryFilter::OP_GREATER_THAN);
+   K("sopLe", StringQueryFilter::OP_LESS_THAN_OR_EQUAL_TO); K("sopGe", StringQueryFilter::OP_GREATER_THAN_OR_EQUAL_TO); K("sopNe", StringQueryFilter::OP_NOT_EQUAL_TO);
+   K("sopStartsWith", StringQueryFilter::OP_STARTS_WITH); K("sopEndsWith", StringQueryFilter::OP_ENDS_WITH); K("sopContains", StringQueryFilter::OP_CONTAINS);
+   K("sopStartOf", StringQueryFilter::OP_START_OF); K("sopEndOf", StringQueryFilter::OP_END_OF); K("sopSubstringOf", StringQueryFilter::OP_SUBSTRING_OF);
+   K("sopIcBase", StringQueryFilter::OP_EQUAL_TO_IGNORECASE);   // the twelve *_IGNORECASE operators follow in the same order
+   K("sopWild", StringQueryFilter::OP_SIMPLE_WILDCARD_MATCH); K("sopRegex", StringQueryFilter::OP_REGULAR_EXPRESSION_MATCH);
+   K("sopWildIc", StringQueryFilter::OP_SIMPLE_WILDCARD_MATCH_IGNORECASE); K("sopRegexIc", StringQueryFilter::OP_REGULAR_EXPRESSION_MATCH_IGNORECASE);
+   K("sopCount", StringQueryFilter::NUM_STRING_OPERATORS);
+   K("ropEq", RawDataQueryFilter::OP_EQUAL_TO); K("ropLt", RawDataQueryFilter::OP_LESS_THAN); K("ropGt", RawDataQueryFilter::OP_GREATER_THAN);
+   K("ropLe", RawDataQueryFilter::OP_LESS_THAN_OR_EQUAL_TO); K("ropGe", RawDataQueryFilter::OP_GREATER_THAN_OR_EQUAL_TO); K("ropNe", RawDataQueryFilter::OP_NOT_EQUAL_TO);
+   K("ropStartsWith", RawDataQueryFilter::OP_STARTS_WITH); K("ropEndsWith", RawDataQueryFilter::OP_ENDS_WITH); K("ropContains", RawDataQueryFilter::OP_CONTAINS);
+   K("ropStartOf", RawDataQueryFilter::OP_START_OF); K("ropEndOf", RawDataQueryFilter::OP_END_OF); K("ropSubsetOf", RawDataQueryFilter::OP_SUBSET_OF);
+   {Rect rr; Point pp; uint8 b[16]; memcpy(b, &rr, 16); printf("def rectDefault : List UInt8 := ["); for (int i=0; i<16; i++) printf("%s%u", i?", ":"", b[i]); printf("]   -- in-memory bytes of Rect()\n");
+    memcpy(b, &pp, 8); printf("def pointDefault : List UInt8 := ["); for (int i=0; i<8; i++) printf("%s%u", i?", ":"", b[i]); printf("]   -- in-memory bytes of Point()\n");}
+   K("sizeofPoint", sizeof(Point)); K("sizeofRect", sizeof(Rect)); K("sizeofBool", sizeof(bool));
+   K("timeNever", (uint64)MUSCLE_TIME_NEVER);   // C20: "no pulse wanted" (util/TimeUtilityFunctions.h)
    printf("\n/- tunables: enter the model as parameters; theorems are quantified over them -/\n");
    K("maxMessageNestingDepth", (uint32)MUSCLE_MAX_MESSAGE_NESTING_DEPTH);
    printf("\n/-- flattened size per item of the fixed-size field types, 0 = variable size\n    (tabulated from the compiled `Message::GetElementSize` / wire sizes) -/\n");
